@@ -269,7 +269,6 @@ func main() {
 	for i := 0; i < cfg.N; i++ {
 		trees = append(trees, genTree(r, 3, 12))
 	}
-	var names []string
 	for _, t := range trees {
 		reps := 1
 		if t.size() >= 3 && cfg.Tier == "thorough" {
@@ -289,12 +288,9 @@ func main() {
 			for _, b := range res.Cbs {
 				cbs = append(cbs, vh.Bool(b))
 			}
-			out.Coqf("Definition c%d := check %s {| cbs := %s; completed := %d; failed_seen := %s; unfinished_at_cb := %d; any_panic := %s; hang := %s |}.\n",
-				idx, t.coq(), vh.List(cbs), res.Completed, vh.Bool(res.Failed), res.UnfinAtCb, vh.Bool(res.Panic), vh.Bool(res.Hang))
-			names = append(names, fmt.Sprintf("(%d, c%d)", idx, idx))
+			out.Check(idx, fmt.Sprintf("check %s {| cbs := %s; completed := %d; failed_seen := %s; unfinished_at_cb := %d; any_panic := %s; hang := %s |}",
+				t.coq(), vh.List(cbs), res.Completed, vh.Bool(res.Failed), res.UnfinAtCb, vh.Bool(res.Panic), vh.Bool(res.Hang)))
 		}
 	}
-	out.Coqf("Definition results : list (nat * (nat * nat)) := %s.\n", vh.List(names))
-	out.Coqf("Definition bad := Eval vm_compute in filter (fun '(_, (c, o)) => negb ((c =? 0) && (o =? 0))) results.\nPrint bad.\n")
 	out.Finish()
 }
